@@ -604,11 +604,72 @@ def c_case(table, ops, seen0, seen):
     return f"mkic {ct} {heap0} {ops_t} {c_graph(seen0)} {seen_t}"
 
 
-def run_case(case):
+ANCHORED = ("utils/mutation.py", "methods/core.py", "methods/scalar.py", "methods/toplevel.py",
+            "collections/base.py", "collections/sequences.py", "collections/mappings.py", "collections/sets.py",
+            "methods/collections/sequences.py", "methods/collections/mappings.py", "methods/collections/sets.py",
+            "types/attr.py")
+EXECUTED = set()      # (relative file, line) executed while running compared cases
+
+
+def _tracer(frame, event, arg):
+    fn = frame.f_code.co_filename
+    i = fn.find("spec_classes/")
+    if i < 0:
+        return None
+    rel = fn[i + len("spec_classes/"):]
+    if rel not in ANCHORED:
+        return None
+
+    def local(frame, event, arg):
+        if event == "line":
+            EXECUTED.add((rel, frame.f_lineno))
+        return local
+    EXECUTED.add((rel, frame.f_lineno))
+    return local
+
+
+def line_coverage():
+    """executed / executable lines of the anchored files (function bodies only)"""
+    import importlib
+    import os
+    import spec_classes
+    root = os.path.dirname(spec_classes.__file__)
+    out = {}
+    for rel in ANCHORED:
+        path = os.path.join(root, rel)
+        try:
+            code = compile(open(path).read(), path, "exec")
+        except OSError:
+            continue
+        lines = set()
+
+        def walk(co, top=True):
+            if not top:
+                for _, _, ln in co.co_lines():
+                    if ln is not None and ln != co.co_firstlineno:
+                        lines.add(ln)
+            for c in co.co_consts:
+                if hasattr(c, "co_code"):
+                    walk(c, False)
+        walk(code)
+        done = {ln for f, ln in EXECUTED if f == rel}
+        miss = sorted(lines - done)
+        out[rel] = {"executable": len(lines), "executed": len(lines & done), "not_executed": miss[:60]}
+    return out
+
+
+def run_case(case, trace=False):
+    import sys
     table, ops = case["table"], case["ops"]
     try:
         w = World(table)
-        seen0, seen = w.run(ops)
+        if trace:
+            sys.settrace(_tracer)
+        try:
+            seen0, seen = w.run(ops)
+        finally:
+            if trace:
+                sys.settrace(None)
     except BaseException as e:
         if isinstance(e, (KeyboardInterrupt, SystemExit)):
             raise
@@ -616,11 +677,11 @@ def run_case(case):
     return (seen0, seen), None
 
 
-def evaluate(pid, cases, tag="c"):
+def evaluate(pid, cases, tag="c", trace_every=0):
     """returns list of (index, bitmask, observation) for non-zero masks, and logs"""
     terms, obs, broken = [], [], []
     for i, case in enumerate(cases):
-        r, err = run_case(case)
+        r, err = run_case(case, trace=bool(trace_every) and i % trace_every == 0)
         if r is None:
             broken.append((i, err))
             r = (([], []), [])
